@@ -15,6 +15,7 @@
 //!   {"id":.., "unopt": OUTCOME, "opt": [{"config": [...], "outcome": OUTCOME | "optimizer_panic": msg}]}
 //!   OUTCOME = {"lines": [...], "ending": {"kind":.., "detail":..}, "overflowed": bool, "steps": fuel used}
 //! or {"id":.., "rejected": true} when the front end reports errors.
+#![allow(dead_code)] // the library entry points are for the other checks of the harness
 use crate::front::{load_sources, mod_ref, panic_msg};
 use samlang_ast::hir::BinaryOperator as Op;
 use samlang_ast::mir::{
@@ -70,10 +71,12 @@ pub fn run_mir(heap: &Heap, sources: &Sources, main: &FunctionName, fuel: u64, m
   run_mir_with(heap, sources, main, fuel, max_depth, MirOptions::default())
 }
 
-const STACK_SIZE: usize = 1 << 30;
-/// Native stack the interpreter allows itself before reporting StackOverflow regardless of
-/// `max_depth` (the rest is head room for builtins, formatting and unwinding).
-const STACK_BUDGET: usize = STACK_SIZE - (64 << 20);
+/// Stack sizes tried for the interpreter thread, largest first.  7/8 of the stack may be used
+/// before StackOverflow is reported regardless of `max_depth` (the rest is head room for
+/// builtins, formatting and unwinding).
+const STACK_SIZES: [usize; 3] = [1 << 30, 1 << 28, 1 << 26];
+/// Bytes of interpreter heap (there is no garbage collection) after which a run is OutOfFuel.
+const MEMORY_LIMIT: usize = 512 << 20;
 
 struct AssertSend<T>(T);
 // The spawning thread blocks in `join` while the interpreter thread uses the references.
@@ -99,28 +102,32 @@ pub fn run_mir_counting(
   max_depth: usize,
   options: MirOptions,
 ) -> (MirOutcome, u64) {
-  let input = AssertSend((heap, sources, *main));
-  let spawned = std::thread::scope(|scope| {
-    std::thread::Builder::new().stack_size(STACK_SIZE).spawn_scoped(scope, move || {
-      let input = input; // move the whole wrapper, not its fields
-      let (heap, sources, main) = input.0;
-      let mut interp = Interp::new(heap, sources, fuel, max_depth, options);
-      let r = catch_unwind(AssertUnwindSafe(|| interp.run_main(&main)));
-      let ending = match r {
-        Ok(Ok(())) => MirEnding::Return,
-        Ok(Err(e)) => e,
-        Err(p) => MirEnding::Fault(format!("interpreter panic: {}", panic_msg(p))),
-      };
-      let outcome = MirOutcome { lines: std::mem::take(&mut interp.lines), ending, overflowed: interp.overflowed };
-      AssertSend((outcome, fuel - interp.fuel))
-    })
-    .map(|h| h.join())
-  });
-  match spawned {
-    Ok(Ok(o)) => o.0,
-    Ok(Err(p)) => (fault_outcome(format!("interpreter thread panic: {}", panic_msg(p))), 0),
-    Err(e) => (fault_outcome(format!("cannot spawn interpreter thread: {e}")), 0),
+  let mut error = String::new();
+  for stack_size in STACK_SIZES {
+    let input = AssertSend((heap, sources, *main));
+    let spawned = std::thread::scope(|scope| {
+      std::thread::Builder::new().stack_size(stack_size).spawn_scoped(scope, move || {
+        let input = input; // move the whole wrapper, not its fields
+        let (heap, sources, main) = input.0;
+        let mut interp = Interp::new(heap, sources, fuel, max_depth, stack_size / 8 * 7, options);
+        let r = catch_unwind(AssertUnwindSafe(|| interp.run_main(&main)));
+        let ending = match r {
+          Ok(Ok(())) => MirEnding::Return,
+          Ok(Err(e)) => e,
+          Err(p) => MirEnding::Fault(format!("interpreter panic: {}", panic_msg(p))),
+        };
+        let outcome = MirOutcome { lines: std::mem::take(&mut interp.lines), ending, overflowed: interp.overflowed };
+        AssertSend((outcome, fuel - interp.fuel))
+      })
+      .map(|h| h.join())
+    });
+    match spawned {
+      Ok(Ok(o)) => return o.0,
+      Ok(Err(p)) => return (fault_outcome(format!("interpreter thread panic: {}", panic_msg(p))), 0),
+      Err(e) => error = e.to_string(),
+    }
   }
+  (fault_outcome(format!("cannot spawn interpreter thread: {error}")), 0)
 }
 
 fn fault_outcome(msg: String) -> MirOutcome {
@@ -220,10 +227,19 @@ struct Interp<'a> {
   depth: usize,
   max_depth: usize,
   stack_base: usize,
+  stack_budget: usize,
+  memory: usize,
 }
 
 impl<'a> Interp<'a> {
-  fn new(heap: &'a Heap, sources: &'a Sources, fuel: u64, max_depth: usize, options: MirOptions) -> Self {
+  fn new(
+    heap: &'a Heap,
+    sources: &'a Sources,
+    fuel: u64,
+    max_depth: usize,
+    stack_budget: usize,
+    options: MirOptions,
+  ) -> Self {
     let mut me = Interp {
       heap,
       options,
@@ -241,6 +257,8 @@ impl<'a> Interp<'a> {
       depth: 0,
       max_depth,
       stack_base: stack_pointer(),
+      stack_budget,
+      memory: 0,
     };
     for g in &sources.global_variables {
       let v = me.alloc(Obj::Str(Rc::from(g.0.as_str(heap))));
@@ -286,11 +304,20 @@ impl<'a> Interp<'a> {
   }
 
   fn alloc(&mut self, o: Obj) -> V {
+    self.memory += 48
+      + match &o {
+        Obj::Struct(fields) => 16 * fields.len(),
+        Obj::Str(s) => s.len(),
+        Obj::Closure(..) | Obj::Vec { .. } => 0,
+      };
     self.objs.push(o);
     V::Ref((self.objs.len() - 1) as u32)
   }
 
   fn tick(&mut self, n: u64) -> R<()> {
+    if self.memory > MEMORY_LIMIT {
+      return Err(MirEnding::OutOfFuel);
+    }
     if self.fuel < n {
       self.fuel = 0;
       return Err(MirEnding::OutOfFuel);
@@ -420,8 +447,17 @@ impl<'a> Interp<'a> {
       }
       Statement::Binary(b) => {
         let (v1, v2) = (self.eval(&b.e1)?, self.eval(&b.e2)?);
-        let r = self.binary(b.operator, &b.e1, &b.e2, v1, v2)?;
-        self.def(b.name, V::Int(r));
+        // DECISION: `x + 0` is the optimizer's move idiom for values of every type (inlining.rs:
+        // "Using this to move the value around, will be optimized away eventually").
+        if b.operator == Op::PLUS
+          && matches!(b.e2, Expression::Int32Literal(0))
+          && !matches!(v1, V::Int(_))
+        {
+          self.def(b.name, v1);
+        } else {
+          let r = self.binary(b.operator, &b.e1, &b.e2, v1, v2)?;
+          self.def(b.name, V::Int(r));
+        }
       }
       Statement::IndexedAccess { name, type_: _, pointer_expression, index } => {
         let v = match self.eval(pointer_expression)? {
@@ -667,7 +703,7 @@ impl<'a> Interp<'a> {
         args.len()
       ));
     }
-    if self.depth >= self.max_depth || self.stack_base.saturating_sub(stack_pointer()) > STACK_BUDGET {
+    if self.depth >= self.max_depth || self.stack_base.saturating_sub(stack_pointer()) > self.stack_budget {
       return Err(MirEnding::StackOverflow);
     }
     self.tick(1)?;
@@ -744,6 +780,9 @@ impl<'a> Interp<'a> {
           arity(2)?;
           let (a, b) = (self.string(args[0], "concat")?, self.string(args[1], "concat")?);
           self.tick(((a.len() + b.len()) / 16) as u64)?;
+          if self.memory + a.len() + b.len() > MEMORY_LIMIT {
+            return Err(MirEnding::OutOfFuel);
+          }
           let s: Rc<str> = Rc::from(format!("{a}{b}"));
           Ok(self.alloc(Obj::Str(s)))
         }
@@ -810,6 +849,7 @@ impl<'a> Interp<'a> {
             unit
           }),
           "push" => arity(2).map(|_| {
+            self.memory += 16;
             reserve(cap, len as i32 + 1);
             data.push(args[1]);
             unit
@@ -875,7 +915,7 @@ enum CompileFailure {
 
 /// Front end + lowering (+ optimization with `config`) in a fresh `Heap`, following
 /// `samlang_compiler::compile_sources`.
-fn compile(job: &Value, config: Option<&[bool]>) -> Result<(Heap, Sources, ModuleReference), CompileFailure> {
+fn compile(job: &Value, config: Option<&Value>) -> Result<(Heap, Sources, ModuleReference, Value), CompileFailure> {
   let mut heap = Heap::new();
   let texts = load_sources(&mut heap, job);
   let entry = mod_ref(&mut heap, job["entry"].as_str().unwrap_or(""));
@@ -896,9 +936,38 @@ fn compile(job: &Value, config: Option<&[bool]>) -> Result<(Heap, Sources, Modul
     Ok(None) => return Err(CompileFailure::Rejected),
     Err(p) => return Err(CompileFailure::Panic("lowering_panic", panic_msg(p))),
   };
+  let _ = samlang_optimization::verif::take_iv_elimination_log();
   let sources = match config {
     None => unoptimized,
+    // {"pass": name}: one pass applied once, in isolation (samlang_verif hook)
+    Some(c) if c.is_object() => {
+      let name = c["pass"].as_str().unwrap_or("").to_string();
+      match catch_unwind(AssertUnwindSafe(|| {
+        let mut sources = unoptimized;
+        match name.as_str() {
+          "inlining" => {
+            let functions = std::mem::take(&mut sources.functions);
+            sources.functions = samlang_optimization::verif::run_inlining(functions, &mut heap);
+          }
+          "unused" => samlang_optimization::verif::run_unused_name_elimination(&mut sources),
+          _ => {
+            let counter = heap.create_temp_counter();
+            for f in sources.functions.iter_mut() {
+              if !samlang_optimization::verif::run_function_pass(&name, f, &counter) {
+                panic!("unknown pass {name}");
+              }
+            }
+            heap.sync_temp_counter(&counter);
+          }
+        }
+        sources
+      })) {
+        Ok(s) => s,
+        Err(p) => return Err(CompileFailure::Panic("optimizer_panic", panic_msg(p))),
+      }
+    }
     Some(c) => {
+      let c: Vec<bool> = c.as_array().map(|a| a.iter().map(|b| b.as_bool().unwrap_or(false)).collect()).unwrap_or_default();
       let flag = |i: usize| c.get(i).copied().unwrap_or(false);
       let configuration = samlang_optimization::OptimizationConfiguration {
         does_perform_local_value_numbering: flag(0),
@@ -915,21 +984,26 @@ fn compile(job: &Value, config: Option<&[bool]>) -> Result<(Heap, Sources, Modul
       }
     }
   };
-  Ok((heap, sources, entry))
+  let iv_log: Vec<Value> = samlang_optimization::verif::take_iv_elimination_log()
+    .into_iter()
+    .map(|(op, m)| json!([op, m]))
+    .collect();
+  Ok((heap, sources, entry, json!(iv_log)))
 }
 
 /// Compile with `config`, run, and render: `Ok(outcome json)` or `Err((key, message))`.
-fn compile_and_run(job: &Value, config: Option<&[bool]>) -> Result<Value, CompileFailure> {
-  let (heap, sources, entry) = compile(job, config)?;
+fn compile_and_run(job: &Value, config: Option<&Value>) -> Result<Value, CompileFailure> {
+  let (heap, sources, entry, iv_log) = compile(job, config)?;
   let fuel = job["fuel"].as_u64().unwrap_or(50_000_000);
   let max_depth = job["max_depth"].as_u64().unwrap_or(10_000) as usize;
-  let options = MirOptions { parallel_loops: job["parallel_loops"].as_bool().unwrap_or(false) };
+  let options = MirOptions { parallel_loops: job["parallel_loops"].as_bool().unwrap_or(true) };
   let (outcome, steps) = match find_main(&heap, &sources, entry) {
     Some(main) => run_mir_counting(&heap, &sources, &main, fuel, max_depth, options),
     None => (fault_outcome("entry module has no Main.main".to_string()), 0),
   };
   let mut rendered = outcome_json(&outcome);
   rendered["steps"] = json!(steps);
+  rendered["iv_log"] = iv_log;
   if job["dump_mir"].as_bool().unwrap_or(false) {
     rendered["mir"] = json!(catch_unwind(AssertUnwindSafe(|| sources.debug_print(&heap))).unwrap_or_default());
   }
@@ -945,9 +1019,7 @@ pub fn run_job(job: &Value) -> Value {
   };
   let mut opt = Vec::new();
   for config in job["configs"].as_array().map(|a| a.as_slice()).unwrap_or(&[]) {
-    let flags: Vec<bool> =
-      config.as_array().map(|a| a.iter().map(|b| b.as_bool().unwrap_or(false)).collect()).unwrap_or_default();
-    opt.push(match compile_and_run(job, Some(&flags)) {
+    opt.push(match compile_and_run(job, Some(config)) {
       Ok(o) => json!({"config": config, "outcome": o}),
       Err(CompileFailure::Rejected) => json!({"config": config, "rejected": true}),
       Err(CompileFailure::Panic(key, msg)) => json!({"config": config, key: msg}),
@@ -969,5 +1041,239 @@ pub fn main(_args: &[String]) {
       Err(e) => json!({"error": format!("bad job: {e}")}),
     };
     println!("{result}");
+  }
+}
+
+// ------------------------------------------------------------------------------------------------
+// Tests on hand-written MIR (the Fault paths cannot be reached from compiler-produced MIR)
+// ------------------------------------------------------------------------------------------------
+
+#[cfg(test)]
+mod tests {
+  use super::*;
+  use samlang_ast::mir::{
+    Binary, FunctionNameExpression, FunctionType, GenenalLoopVariable, INT_32_TYPE, IfElseFinalAssignment,
+    SymbolTable, VariableName,
+  };
+
+  struct B {
+    heap: Heap,
+  }
+  impl B {
+    fn s(&mut self, s: &'static str) -> PStr {
+      self.heap.alloc_str_for_test(s)
+    }
+    fn v(&mut self, s: &'static str) -> Expression {
+      Expression::var_name(self.s(s), INT_32_TYPE)
+    }
+    fn fname(&mut self, s: &'static str) -> FunctionName {
+      FunctionName::new_for_test(self.s(s))
+    }
+    fn func(&mut self, name: &'static str, params: &[&'static str], body: Vec<Statement>, ret: Expression) -> Function {
+      Function {
+        name: self.fname(name),
+        parameters: params.iter().map(|p| self.s(p)).collect(),
+        type_: FunctionType { argument_types: vec![INT_32_TYPE; params.len()], return_type: Box::new(INT_32_TYPE) },
+        body,
+        return_value: ret,
+      }
+    }
+    fn call(&mut self, f: &'static str, args: Vec<Expression>, collector: Option<&'static str>) -> Statement {
+      Statement::Call {
+        callee: Callee::FunctionName(FunctionNameExpression {
+          name: self.fname(f),
+          type_: FunctionType { argument_types: vec![INT_32_TYPE; args.len()], return_type: Box::new(INT_32_TYPE) },
+        }),
+        arguments: args,
+        return_type: INT_32_TYPE,
+        return_collector: collector.map(|c| self.s(c)),
+      }
+    }
+    /// Prints an int: `Process.println(0, Str.fromInt(0, e))`.
+    fn print(&mut self, e: Expression) -> Vec<Statement> {
+      let t = self.s("_printed");
+      let str_t = Type::Id(TypeNameId::STR);
+      let callee = |name: FunctionName| {
+        Callee::FunctionName(FunctionNameExpression {
+          name,
+          type_: FunctionType { argument_types: vec![INT_32_TYPE, INT_32_TYPE], return_type: Box::new(INT_32_TYPE) },
+        })
+      };
+      vec![
+        Statement::Call {
+          callee: callee(FunctionName::STR_FROM_INT),
+          arguments: vec![Expression::i32(0), e],
+          return_type: str_t,
+          return_collector: Some(t),
+        },
+        Statement::Call {
+          callee: callee(FunctionName::PROCESS_PRINTLN),
+          arguments: vec![Expression::i32(0), Expression::var_name(t, str_t)],
+          return_type: INT_32_TYPE,
+          return_collector: None,
+        },
+      ]
+    }
+    fn run(&mut self, functions: Vec<Function>, options: MirOptions, max_depth: usize) -> MirOutcome {
+      let main = self.fname("main");
+      let sources = Sources {
+        symbol_table: SymbolTable::new(),
+        global_variables: Vec::new(),
+        closure_types: Vec::new(),
+        type_definitions: Vec::new(),
+        main_function_names: vec![main],
+        functions,
+      };
+      run_mir_with(&self.heap, &sources, &main, 10_000, max_depth, options)
+    }
+    fn run_main(&mut self, body: Vec<Statement>, ret: Expression) -> MirOutcome {
+      let f = self.func("main", &[], body, ret);
+      self.run(vec![f], MirOptions::default(), 100)
+    }
+  }
+
+  fn b() -> B {
+    B { heap: Heap::new() }
+  }
+
+  fn is_fault(o: &MirOutcome, needle: &str) -> bool {
+    matches!(&o.ending, MirEnding::Fault(m) if m.contains(needle))
+  }
+
+  #[test]
+  fn faults() {
+    let mut b = b();
+    let x = b.v("x");
+    assert!(is_fault(&b.run_main(vec![], x), "unbound variable x"));
+
+    let call = b.call("g", vec![Expression::i32(1)], None);
+    let (f, g) = (b.func("main", &[], vec![call], Expression::i32(0)), b.func("g", &[], vec![], Expression::i32(0)));
+    assert!(is_fault(&b.run(vec![f, g], MirOptions::default(), 100), "wrong arity"));
+
+    let call = b.call("nowhere", vec![], None);
+    assert!(is_fault(&b.run_main(vec![call], Expression::i32(0)), "unknown function"));
+
+    let (o, y) = (b.s("o"), b.s("y"));
+    let t = SymbolTable::new().create_type_name_for_test(PStr::UPPER_A);
+    let init = Statement::StructInit { struct_variable_name: o, type_name: t, expression_list: vec![Expression::i32(7)] };
+    let access = |index| Statement::IndexedAccess {
+      name: y,
+      type_: INT_32_TYPE,
+      pointer_expression: Expression::var_name(o, Type::Id(t)),
+      index,
+    };
+    let printed = b.print(Expression::var_name(y, INT_32_TYPE));
+    let ok = b.run_main([vec![init.clone(), access(0)], printed].concat(), Expression::i32(0));
+    assert_eq!((ok.lines, ok.ending), (vec!["7".to_string()], MirEnding::Return));
+    assert!(is_fault(&b.run_main(vec![init.clone(), access(1)], Expression::i32(0)), "out of struct bounds"));
+    let bad_access = Statement::IndexedAccess { name: y, type_: INT_32_TYPE, pointer_expression: Expression::i32(3), index: 0 };
+    assert!(is_fault(&b.run_main(vec![bad_access], Expression::i32(0)), "non-pointer"));
+
+    let call_int = Statement::Call {
+      callee: Callee::Variable(VariableName::new(o, INT_32_TYPE)),
+      arguments: vec![],
+      return_type: INT_32_TYPE,
+      return_collector: None,
+    };
+    let bind = Statement::Cast { name: o, type_: INT_32_TYPE, assigned_expression: Expression::i32(1) };
+    assert!(is_fault(&b.run_main(vec![bind, call_int], Expression::i32(0)), "non-function"));
+
+    let cast = |type_, e| Statement::Cast { name: y, type_, assigned_expression: e };
+    assert!(is_fault(&b.run_main(vec![cast(Type::Id(TypeNameId::STR), Expression::i32(5))], Expression::i32(0)), "bad cast"));
+    assert!(is_fault(&b.run_main(vec![cast(INT_32_TYPE, Expression::Int31Literal(5))], Expression::i32(0)), "bad cast"));
+    assert!(is_fault(&b.run_main(vec![init, cast(INT_32_TYPE, Expression::var_name(o, Type::Id(t)))], Expression::i32(0)), "bad cast"));
+    assert_eq!(b.run_main(vec![cast(Type::Int31, Expression::Int31Literal(5))], Expression::i32(0)).ending, MirEnding::Return);
+
+    // a name defined inside a branch is out of scope after it; non-boolean conditions
+    let inner = Statement::binary(y, Op::PLUS, Expression::i32(1), Expression::i32(1));
+    let branch = Statement::SingleIf { condition: Expression::i32(0), invert_condition: true, statements: vec![inner] };
+    assert!(is_fault(&b.run_main(vec![branch], Expression::var_name(y, INT_32_TYPE)), "unbound variable y"));
+    let branch = Statement::SingleIf { condition: Expression::i32(2), invert_condition: false, statements: vec![] };
+    assert!(is_fault(&b.run_main(vec![branch], Expression::i32(0)), "not 0/1"));
+    assert!(is_fault(&b.run_main(vec![Statement::Break(Expression::i32(0))], Expression::i32(0)), "break outside"));
+    let decl = Statement::LateInitDeclaration { name: y, type_: INT_32_TYPE };
+    assert!(is_fault(&b.run_main(vec![decl], Expression::var_name(y, INT_32_TYPE)), "unassigned late-init"));
+    let assign = Statement::LateInitAssignment { name: y, assigned_expression: Expression::i32(0) };
+    assert!(is_fault(&b.run_main(vec![assign], Expression::i32(0)), "undeclared"));
+  }
+
+  #[test]
+  fn operators_and_control_flow() {
+    let mut b = b();
+    let cases: Vec<(Op, i32, i32, i32)> = vec![
+      (Op::SHR, -1, 28, 15),
+      (Op::SHR, -1, 32, -1),
+      (Op::SHL, 1, 33, 2),
+      (Op::MOD, i32::MIN, -1, 0),
+      (Op::MOD, -7, 2, -1),
+      (Op::DIV, -7, 2, -3),
+      (Op::MUL, 65536, 65536, 0),
+      (Op::LAND, 6, 3, 2),
+      (Op::LOR, 6, 3, 7),
+      (Op::XOR, 6, 3, 5),
+      (Op::LT, -1, 0, 1),
+      (Op::GE, -1, 0, 0),
+      (Op::NE, 4, 4, 0),
+    ];
+    for (op, x, y, expected) in cases {
+      let r = b.s("r");
+      let stmt = Statement::Binary(Binary { name: r, operator: op, e1: Expression::i32(x), e2: Expression::i32(y) });
+      let printed = b.print(Expression::var_name(r, INT_32_TYPE));
+      let o = b.run_main([vec![stmt], printed].concat(), Expression::i32(0));
+      assert_eq!(o.lines, vec![expected.to_string()], "{x} {} {y}", op.as_str());
+      assert_eq!(o.overflowed, op == Op::MUL);
+    }
+    let r = b.s("r");
+    let div = |x, y| Statement::Binary(Binary { name: r, operator: Op::DIV, e1: Expression::i32(x), e2: Expression::i32(y) });
+    assert_eq!(b.run_main(vec![div(1, 0)], Expression::i32(0)).ending, MirEnding::Trap("div-by-zero".to_string()));
+    assert_eq!(b.run_main(vec![div(i32::MIN, -1)], Expression::i32(0)).ending, MirEnding::Trap("div-overflow".to_string()));
+
+    // if (c) { t = 1 + 1; r = t } else { r = 5 }
+    for (c, expected) in [(1, "2"), (0, "5")] {
+      let (t, r) = (b.s("t"), b.s("r"));
+      let stmt = Statement::IfElse {
+        condition: Expression::i32(c),
+        s1: vec![Statement::binary(t, Op::PLUS, Expression::i32(1), Expression::i32(1))],
+        s2: vec![],
+        final_assignments: vec![IfElseFinalAssignment {
+          name: r,
+          type_: INT_32_TYPE,
+          e1: Expression::var_name(t, INT_32_TYPE),
+          e2: Expression::i32(5),
+        }],
+      };
+      let printed = b.print(Expression::var_name(r, INT_32_TYPE));
+      assert_eq!(b.run_main([vec![stmt], printed].concat(), Expression::i32(0)).lines, vec![expected.to_string()]);
+    }
+
+    // let i = 0, j = 10; while (true) { if (i >= 3) { bc = j; break } t = i + 1; i = t; j = i } print(bc)
+    // sequential update: j sees the new i (3 at the end); parallel: the old one (2).
+    for (parallel, expected) in [(false, "3"), (true, "2")] {
+      let (i, j, t, c, bc) = (b.s("i"), b.s("j"), b.s("t"), b.s("c"), b.s("bc"));
+      let var = |n| Expression::var_name(n, INT_32_TYPE);
+      let stmt = Statement::While {
+        loop_variables: vec![
+          GenenalLoopVariable { name: i, type_: INT_32_TYPE, initial_value: Expression::i32(0), loop_value: var(t) },
+          GenenalLoopVariable { name: j, type_: INT_32_TYPE, initial_value: Expression::i32(10), loop_value: var(i) },
+        ],
+        statements: vec![
+          Statement::binary(c, Op::GE, var(i), Expression::i32(3)),
+          Statement::SingleIf { condition: var(c), invert_condition: false, statements: vec![Statement::Break(var(j))] },
+          Statement::binary(t, Op::PLUS, var(i), Expression::i32(1)),
+        ],
+        break_collector: Some(VariableName::new(bc, INT_32_TYPE)),
+      };
+      let printed = b.print(var(bc));
+      let f = b.func("main", &[], [vec![stmt], printed].concat(), Expression::i32(0));
+      let o = b.run(vec![f], MirOptions { parallel_loops: parallel }, 100);
+      assert_eq!((o.lines, o.ending), (vec![expected.to_string()], MirEnding::Return));
+    }
+
+    // unbounded recursion and an unbounded loop
+    let call = b.call("main", vec![], None);
+    let f = b.func("main", &[], vec![call], Expression::i32(0));
+    assert_eq!(b.run(vec![f], MirOptions::default(), 50).ending, MirEnding::StackOverflow);
+    let spin = Statement::While { loop_variables: vec![], statements: vec![], break_collector: None };
+    assert_eq!(b.run_main(vec![spin], Expression::i32(0)).ending, MirEnding::OutOfFuel);
   }
 }
